@@ -6,6 +6,7 @@ import (
 	"bytes"
 	"errors"
 	"fmt"
+	"os"
 	"strings"
 	"time"
 
@@ -334,6 +335,67 @@ func cliCheck(res *sched.Result, w *cliWorld) (finds []explore.Finding, outcome 
 			add("C12/garbage-delivered", "an undecodable datagram reached a handler; %s", w.logString())
 		}
 	}
+	// any scenario: a message event that reached the FALLBACK handler although a transaction with its id had its request
+	// on the wire before the datagram was delivered and was completed only after that fallback call (it was in flight
+	// all the time in between)
+	if !sc.DupIDs {
+		for f, r := range w.log {
+			if r.Kind != "fallback" || r.Data == nil || r.Err != nil || len(r.Data) < 20 {
+				continue
+			}
+			dpos := -1
+			for q := f - 1; q >= 0; q-- {
+				if d := w.log[q]; d.Kind == "deliver" && d.ID == r.ID && bytes.Equal(w.delivered[d.N], r.Data) {
+					dpos = q
+					break
+				}
+			}
+			if dpos < 0 {
+				continue
+			}
+			for idx, inst := range w.insts {
+				if inst.ID != r.ID || !inst.Called || (inst.Returned && inst.RetErr != nil) {
+					continue
+				}
+				onWire := false
+				for q := inst.CallPos; q < dpos; q++ {
+					if wr := w.log[q]; wr.Kind == "write" && wr.Err == nil && wr.ID == inst.ID {
+						onWire = true
+						break
+					}
+				}
+				if !onWire || len(inst.HandlerAt) == 0 || inst.HandlerAt[0] < f {
+					continue
+				}
+				later := false // another instance of the same id started in between: its attribution is not decided here
+				for j, o := range w.insts {
+					if j != idx && o.ID == inst.ID && o.Called && o.CallPos > inst.CallPos {
+						later = true
+					}
+				}
+				if !later {
+					// where the transaction was at that moment: Start still running / between a time-out and the
+					// re-transmission it triggers (the table entry is taken out and put back) / anywhere else
+					where := "other"
+					switch {
+					case !inst.Returned || inst.RetAt > f:
+						where = "start-still-running"
+					default:
+						// a collector tick began after the last successful transmission of this request and before the
+						// fallback call: the time-out handling (take out of the table, re-transmit or fail, put back or
+						// complete) was under way
+						for q := f - 1; q >= inst.CallPos; q-- {
+							if w.log[q].Kind == "tick-begin" {
+								where = "during-retransmission" // a collector tick began while this transaction existed
+								break
+							}
+						}
+					}
+					add("C12/response-went-to-fallback/"+where, "a response with the id of transaction #%d went to the fallback handler (log position %d) although the request was on the wire before the datagram was delivered (%d) and the transaction was completed only later (%d); %s", idx, f, dpos, inst.HandlerAt[0], w.logString())
+				}
+			}
+		}
+	}
 	if sc.Sequential {
 		// sequential histories: every decodable datagram delivered before any Close has been read; it must have
 		// reached the handler of the transaction that was in flight under its id, else the fallback handler (if set)
@@ -352,13 +414,46 @@ func cliCheck(res *sched.Result, w *cliWorld) (finds []explore.Finding, outcome 
 			}
 			return false
 		}
+		// an undecodable datagram has no effect at all: in a sequential history (every event runs to quiescence) nothing
+		// is written and no handler runs between its delivery and the next event
+		if sc.Sequential {
+			for pos, r := range w.log {
+				if r.Kind != "deliver-garbage" || pos > firstClose {
+					continue
+				}
+				for q := pos + 1; q < len(w.log); q++ {
+					k := w.log[q].Kind
+					if k == "ev" || k == "deliver-garbage" || k == "tick-begin" || k == "close-ret" {
+						break
+					}
+					if k == "write" || k == "handler" || k == "fallback" {
+						add("C12/undecodable-datagram-has-effects", "an undecodable datagram (%x) was followed by %s before the next event; %s", clip(w.delivered[r.N]), k, w.logString())
+						break
+					}
+				}
+			}
+		}
 		for pos, r := range w.log {
 			if r.Kind != "deliver" || pos > firstClose || !decodes(w.delivered[r.N]) {
 				continue
 			}
 			inflight := -1
 			for idx, inst := range w.insts {
-				if inst.ID != r.ID || !inst.Returned || inst.RetErr != nil || inst.RetAt > pos {
+				if inst.ID != r.ID || (inst.Returned && inst.RetErr != nil) {
+					continue
+				}
+				// in flight: Start has returned nil - or, Start still running, its request is on the wire already (a
+				// response exists only because of that write: causality)
+				started := inst.Returned && inst.RetAt <= pos
+				if !started && !sc.DupIDs && inst.Called {
+					for q := inst.CallPos; q < pos && q < len(w.log); q++ {
+						if wr := w.log[q]; wr.Kind == "write" && wr.Err == nil && wr.ID == inst.ID {
+							started = true
+							break
+						}
+					}
+				}
+				if !started {
 					continue
 				}
 				ended := false
@@ -459,7 +554,7 @@ func cliCheck(res *sched.Result, w *cliWorld) (finds []explore.Finding, outcome 
 			}
 		}
 		for _, inst := range w.insts {
-			if inst.CallPos > closeOK && inst.Returned && !errors.Is(inst.RetErr, stun.ErrClientClosed) && (inst.Kind == "start" || inst.Kind == "do") {
+			if inst.Called && inst.CallPos > closeOK && inst.Returned && !errors.Is(inst.RetErr, stun.ErrClientClosed) && (inst.Kind == "start" || inst.Kind == "do") {
 				add("C15/start-after-close", "%s(%c) that began (log position %d) after Close had returned (%d) returned %v; %s", inst.Kind, 'A'+inst.Slot, inst.CallPos, closeOK, inst.RetErr, w.logString())
 			}
 		}
@@ -530,6 +625,9 @@ func cliRunFunc(sc cliScenario, prop string) explore.RunFunc {
 		s.Prefix = prefix
 		res, w := runScenario(s)
 		finds, outcome := cliCheck(res, w)
+		if os.Getenv("CLI_LOG") != "" { // debugging aid for hand-made replays
+			fmt.Fprintf(os.Stderr, "status=%s %s\nall findings: %v\n", res.Status, w.logString(), finds)
+		}
 		var mine []explore.Finding
 		for _, f := range finds {
 			props := f.Key
